@@ -185,6 +185,12 @@ def cases(tier, seed):
                 c = mk(tree, "plain", L, L - 1, "metro", "ssd", extra, tr=["slowkeep", mode], repeat=2)
                 c["meta"]["same_base_names"] = True
                 out.append(c)
+    # a file is rewritten (same length, new mtime) WHILE a cached run works on it - the run is stopped before and after
+    # every call that touches the file; the groups of the NEXT cached run are then compared byte for byte
+    for L, o in ((70000, 35000), (5000, 4999)):
+        for extra in ([], G.transform_args("keep", "pipe") + ["--rf-over", "1"]):
+            c = mk(tree_two(L, o), "cacherace", L, o, "metro", "ssd", ["--cache", "-t", "1"] + extra, tr=["keep", "pipe"] if extra else None)
+            out.append(c)
     # length-changing transforms on trees with hard links (one hash per file id is shared by all its names)
     for L in (10, 5000):
         for op in ("shrink", "double", "prefix"):
@@ -207,6 +213,60 @@ def cases(tier, seed):
 FAIL_OPS = ("failempty", "failpart")
 CACHE_EDITS = ["rewrite_newer", "rewrite_older", "rewrite_plus_1ms", "rewrite_minus_1ms", "replace_by_rename",
                "swap_by_rename"]
+
+
+def evaluate_cacherace(case):
+    import os
+    from .. import shimlab as S
+    meta = case["meta"]
+    viol = []
+    positions = []
+    with C.Scratch() as sc, C.Scratch() as fast:
+        args = ["group"] + case["args"] + ["r", "-f", "json"]
+        names = [e["p"] for e in case["tree"]]
+        a2, b1 = sc.path(names[1]).decode(), names[2]
+
+        def fresh(n):
+            C.rmtree(sc.tree)
+            os.makedirs(sc.tree)
+            C.make_tree(sc.tree, case["tree"])
+            env = dict(case["env"], XDG_CACHE_HOME=os.path.join(fast.root, "cache%d" % n))
+            os.makedirs(env["XDG_CACHE_HOME"])
+            return env
+
+        def rewrite():
+            data = C.read_file(sc.path(b1))
+            with open(a2, "r+b") as f:
+                f.write(data)
+            t = 1_700_000_000_000_000_000
+            os.utime(a2, ns=(t, t))
+        env = fresh(0)
+        rec = S.run_with_shim(sc, args, [sc.tree], "r", env_extra=env)
+        if rec["rc"] != 0:
+            raise C.MachineryError("cached run failed: %s" % rec["err"][-300:])
+        ev = rec["events"]
+        touch = [i for i, e in enumerate(ev) if e.path == a2]
+        positions = sorted(set(touch + [i + 1 for i in touch if i + 1 < len(ev)]))
+        for n, k in enumerate(positions):
+            env = fresh(n + 1)
+            res = S.run_with_shim(sc, args, [sc.tree], "r", mode="pause", at=k, env_extra=env, on_pause=rewrite)
+            if not res["paused"]:
+                raise C.MachineryError("the cached run did not pause at event %d" % k)
+            rc, out, err, to = C.fclones(args, sc, env_extra=env)
+            if rc != 0 or to:
+                continue
+            for g in C.parse_json_report(out).groups:
+                datas = [(C.u(p), C.read_file(p)) for p in g["paths"]]
+                bad = [p for p, d in datas if d != datas[0][1]]
+                if bad:
+                    viol.append({"kind": "non_identical_group", "transform": "keep" if meta["tr"] else "none",
+                                 "differs_only_beyond_input_len": False,
+                                 "first_stage_that_could_see_the_difference": "stale_cache_after_rewrite_during_a_run",
+                                 "detail": "%s rewritten (same length, new mtime) at event %d (%r) of a cached run; the next cached run groups "
+                                           "files with different bytes: %s vs %s; args %s" % (a2, k, ev[k], datas[0][0], bad[0], case["args"])})
+    return {"violations": viol, "nontrivial": ["cacherace", meta["L"], meta["o"], meta["extra"]], "outcome": "cacherace",
+            "counters": {"cache_history_cases": 1, "rewrites_during_a_cached_run": len(positions)},
+            "sample": {"kind": "cacherace", "meta": meta, "positions": len(positions)}}
 
 
 def evaluate_cachehist(case):
@@ -348,6 +408,8 @@ def evaluate(case):
     meta = case["meta"]
     if meta["kind"] == "twofs":
         return evaluate_twofs(case)
+    if meta["kind"] == "cacherace":
+        return evaluate_cacherace(case)
     if meta["kind"] == "cachehist":
         return evaluate_cachehist(case)
     if meta["kind"] == "cacheswitch":
